@@ -126,6 +126,12 @@ namespace sim
          }
          s += "\r\n";
       }
+      else if( prog == 7 ) {
+         static const char* ts[] = { "(de)", "(dx)", "(x)", "(d", "#a", "#x", "#", "[b]", "[]", "[cc]", "[bc]", "[x]", "{b}", "{x}", "{", "<c>", "<x>", "?b", "?x", " ", "(de)(de)" };
+         for( unsigned i = r.range( 1, 5 ); i > 0; --i ) {
+            s += ts[ r.below( sizeof( ts ) / sizeof( ts[ 0 ] ) ) ];
+         }
+      }
       else if( prog == 6 ) {
          static const char* ts[] = { "(ab)", "[cd]", "{ef}", "{ef.g}", "<gh>", "!ij", "!kl?", " ", "(a", "[x", "{y", "<z", "()", "[]", "(ab]", "!", "{q.}" };
          for( unsigned i = r.range( 1, 6 ); i > 0; --i ) {
